@@ -488,6 +488,161 @@ fn str_and_meta_cases(rep: &mut Rep, seed: u64, lens: &[usize]) {
     }
 }
 
+// ---------------------------------------------------------------------------------------------
+// user-defined pointer metadata (the public `meta` extension point): slices whose length prefix
+// is stored as u8 / u16 / u32 / u64 / u128, with byte and u32 elements
+
+macro_rules! custom_meta {
+    ($modname:ident, $len_ty:ty, $elem:ty) => {
+        mod $modname {
+            use super::*;
+            use gc_arena::meta::{AllocMeta, PtrMeta, UnitTypeMeta};
+            use gc_arena::{GcFat, GcThin};
+            use std::alloc::Layout;
+
+            pub struct M;
+            impl PtrMeta<[$elem], ()> for M {
+                type PtrMetadata = $len_ty;
+                type Thin = ();
+                fn to_thin(_: &'static (), fat: *const [$elem]) -> *const () {
+                    fat as *const ()
+                }
+                fn from_thin(_: &'static (), thin: *const (), len: $len_ty) -> *const [$elem] {
+                    std::ptr::slice_from_raw_parts(thin as *const $elem, len as usize)
+                }
+            }
+            impl AllocMeta<[$elem], ()> for M {
+                fn layout(_: &'static (), len: $len_ty) -> Option<Layout> {
+                    Layout::array::<$elem>(len as usize).ok()
+                }
+            }
+
+            #[derive(Collect)]
+            #[collect(no_drop)]
+            pub struct Root<'gc> {
+                pub fat: Vec<GcFat<'gc, [$elem], (), M>>,
+                pub thin: Vec<GcThin<'gc, [$elem], (), M>>,
+            }
+
+            fn val(seed: u8, n: usize, i: usize) -> $elem {
+                pat(seed.wrapping_add(n as u8), i) as $elem
+            }
+
+            fn make<'gc>(mc: &gc_arena::Mutation<'gc>, seed: u8, n: usize) -> GcFat<'gc, [$elem], (), M> {
+                // SAFETY: the metadata impls above are correct for slices and ignore the type metadata
+                unsafe {
+                    let mut b = GcBuilder::<[$elem], (), M>::new_with_type_and_ptr_meta::<UnitTypeMeta>(n as $len_ty);
+                    let dst = b.as_ptr() as *mut $elem;
+                    for i in 0..n {
+                        dst.add(i).write(val(seed, n, i));
+                    }
+                    b.assume_init(mc)
+                }
+            }
+
+            pub fn run(rep: &mut Rep, seed: u64, lens: &[usize]) {
+                let table = "layouts";
+                let case = format!("ptrmeta:{}:[{}]", stringify!($len_ty), stringify!($elem));
+                if !rep.take(&case) {
+                    return;
+                }
+                let s0 = (seed as u8).wrapping_add(3);
+                let lens: Vec<usize> = lens.iter().copied().filter(|n| (*n as u128) <= <$len_ty>::MAX as u128).collect();
+                let mut arena = Arena::<Rootable![Root<'_>]>::new(|_| Root { fat: Vec::new(), thin: Vec::new() });
+                let mut addrs: Vec<(usize, usize)> = Vec::new();
+                let msgs = arena.mutate_root(|mc, root| {
+                    let mut msgs = Vec::new();
+                    for (k, &n) in lens.iter().enumerate() {
+                        let _junk = make(mc, s0, (n % 7) + 1);
+                        let g = make(mc, s0, n);
+                        let fp: *const [$elem] = Gc::as_ptr(g);
+                        let thin = Gc::as_thin(g);
+                        let tp: *const [$elem] = Gc::as_ptr(thin);
+                        let bp: *const [$elem] = Gc::as_ptr(Gc::as_fat(thin));
+                        if fp.len() != n {
+                            msgs.push(format!("[{}] fat pointer has length {}", n, fp.len()));
+                        }
+                        if tp as *const u8 != fp as *const u8 || tp.len() != n {
+                            msgs.push(format!("[{}] thin pointer reconstructs address {:p} length {} (fat: {:p}, {})", n, tp as *const u8, tp.len(), fp as *const u8, n));
+                        }
+                        if bp as *const u8 != fp as *const u8 || bp.len() != n {
+                            msgs.push(format!("[{}] as_thin/as_fat round trip gives length {}", n, bp.len()));
+                        }
+                        if (fp as *const u8 as usize) % align_of::<$elem>() != 0 {
+                            msgs.push(format!("[{}] value misaligned at {:p}", n, fp as *const u8));
+                        }
+                        addrs.push((fp as *const u8 as usize, n));
+                        // odd ones stay reachable through the THIN pointer only
+                        if k % 2 == 0 { root.fat.push(g) } else { root.thin.push(thin) }
+                    }
+                    msgs
+                });
+                for m in msgs {
+                    rep.viol("M-layout", &case, table, m);
+                }
+                for round in 0..3 {
+                    arena.mutate(|mc, _| {
+                        for n in [1usize, 2, 3, 100] {
+                            let _ = make(mc, s0, n);
+                        }
+                    });
+                    arena.finish_cycle();
+                    let bad = arena.mutate(|_, root| {
+                        let mut bad = Vec::new();
+                        let mut fi = 0;
+                        let mut ti = 0;
+                        for (k, (addr, n)) in addrs.iter().enumerate() {
+                            let sl: &[$elem] = if k % 2 == 0 {
+                                fi += 1;
+                                &root.fat[fi - 1]
+                            } else {
+                                ti += 1;
+                                &root.thin[ti - 1]
+                            };
+                            if sl.as_ptr() as usize != *addr || sl.len() != *n {
+                                bad.push(format!("[{}] round {}: address or length changed ({:#x}/{} -> {:p}/{})", n, round, addr, n, sl.as_ptr(), sl.len()));
+                            } else if let Some(i) = (0..*n).find(|i| sl[*i] != val(s0, *n, *i)) {
+                                bad.push(format!("[{}] round {}: element {} reads a different value", n, round, i));
+                            }
+                        }
+                        bad
+                    });
+                    for m in bad {
+                        rep.viol("M-layout", &case, table, m);
+                    }
+                }
+                drop(arena);
+                bad_events(rep, &case, table);
+                rep.inc("custom_ptr_meta_values");
+                rep.case_done(&case, true, J::obj().set("lengths", lens.len()));
+            }
+        }
+    };
+}
+
+custom_meta!(pm_u8_u8, u8, u8);
+custom_meta!(pm_u16_u8, u16, u8);
+custom_meta!(pm_u32_u8, u32, u8);
+custom_meta!(pm_u64_u8, u64, u8);
+custom_meta!(pm_u128_u8, u128, u8);
+custom_meta!(pm_u8_u32, u8, u32);
+custom_meta!(pm_u16_u32, u16, u32);
+custom_meta!(pm_u32_u64, u32, u64);
+custom_meta!(pm_u16_u64, u16, u64);
+
+fn custom_meta_cases(rep: &mut Rep, seed: u64, extra: usize) {
+    let lens = [0usize, 1, 2, 5, 8, 37, 255, 256, 1000, 4097, extra];
+    pm_u8_u8::run(rep, seed, &lens);
+    pm_u16_u8::run(rep, seed, &lens);
+    pm_u32_u8::run(rep, seed, &lens);
+    pm_u64_u8::run(rep, seed, &lens);
+    pm_u128_u8::run(rep, seed, &lens);
+    pm_u8_u32::run(rep, seed, &lens);
+    pm_u16_u32::run(rep, seed, &lens);
+    pm_u32_u64::run(rep, seed, &lens);
+    pm_u16_u64::run(rep, seed, &lens);
+}
+
 pub fn run(rep: &mut Rep, seed: u64, big: bool) {
     sized_grid(rep, seed);
     let mut lens: Vec<usize> = vec![0, 1, 2, 5, 17];
@@ -501,4 +656,5 @@ pub fn run(rep: &mut Rep, seed: u64, big: bool) {
     let mut slens = vec![0usize, 1, 7, 8, 9, 255];
     slens.push(256 + r.below(4000));
     str_and_meta_cases(rep, seed, &slens);
+    custom_meta_cases(rep, seed, 300 + r.below(3000));
 }
